@@ -207,6 +207,7 @@ def structured_cases():
     b.rename_seg([SCRIPTS], 30, HASH + 30); b.rename_seg([], HASH + 11, 11); b.reload()
     b.rename_seg([SCRIPTS], HASH + 30, 30); b.rename_seg([SCRIPTS], HASH + 20, 20); b.reload()
     b.write([12]); b.reload([FILE, 10]); b.reload([FILE, 12]); b.reload([FILE, 99])
+    b.delete([10]); b.reload([FILE, 12]); b.reload([FILE, 10])          # a deleted file, reloaded by name
     out.append(b.case(legacy=True, tags=["hash-rename", "named"]))
     # 5 module package with siblings (absolute sibling imports), sibling change, named reload of the module
     b = Builder()
@@ -506,12 +507,18 @@ class C10(Prop):
 PROP = C10()
 
 MANIFEST_ENTRY = {
-    "technique": "Rocq proof (memoised import closure = reachability, plan = declarative discard set, invariant over all reload histories) "
+    "technique": "Rocq proof (memoised import closure = reachability incl. fuel bound; step-by-step plan = declarative discard/force sets; "
+                 "untouched/post-state invariants lifted over all reload histories; discovery vs documented rules) "
                  "+ in-Coq correspondence with the real pyscript.reload service on real file trees",
-    "level_text": ("Theorems C10_import_closure / C10_plan_exact / C10_untouched / C10_post_state about a Gallina model of load_scripts, "
-                   "module_import and start_global_contexts whose load_paths, context roots, change-detection fields and import "
-                   "candidate table are regenerated from the source on every run and whose behaviour (load events in order and the "
-                   "complete context table after every reload) is compared inside Coq with the real service on generated trees and histories."),
-    "level_note": ("Trusted: Coq kernel+vm_compute; glob/sorted model; translator and drivers in /verif/harness. Not exercised: watchdog thread."),
+    "level_text": ("Theorems C10_import_closure(+_terminates) / C10_plan_exact / C10_untouched / C10_post_state_partial (+ C10_star_discards_all, "
+                   "C10_reexecuted, C10_autoload_complete) / C10_history / C10_discover_names / C10_discover_autoload about a Gallina model of "
+                   "load_scripts, module_import and start_global_contexts whose load_paths, context roots, change-detection fields and import "
+                   "candidate table are regenerated from the source on every run and whose behaviour (load events in order and the complete "
+                   "context table after every reload) is compared inside Coq with the real service on generated trees and histories. "
+                   "Four deviations of the unchanged code (D100-D103) are modelled behind switches, refuted by vm_compute on their witnesses and "
+                   "reported as KNOWN-FINDING while they persist."),
+    "level_note": ("Trusted: Coq kernel+vm_compute; glob/sorted model; translator and drivers in /verif/harness. C10_post_state is partial "
+                   "(see Properties/C10.v): the by-source import closure of the Spec is checked by the correspondence, not proved. "
+                   "Not exercised: watchdog thread."),
     "design_ref": "DESIGN.md §4 C10",
 }
